@@ -110,8 +110,66 @@ CHECKS["C04"] = Spec(
          "small file limits so several non-current files exist; every key read back after most cycles; bucket table and byte images of all "
          "files compared with the model after every cycle; non-trivial = >= 2 GC cycles, >= 4 puts, >= 1 flush; distinct = by history text",
 )
+def _c09_crash(ctx):
+    """C09, last clause: a re-bucketing that is interrupted never leaves a store that opens with fewer keys.  Histories that end in one or two
+    re-bucketings run in a child under strace; SIGKILL on entering every file-system call behind a mutating one (the directory operations of
+    the replacement are always among the points); each image is opened with the NEW bit size by the real code and every key read back."""
+    from . import crash
+    prop, tier, wd, rng = ctx["prop"], ctx["tier"], ctx["wd"], ctx["rng"]
+    C.go_build(["crashdrive"])
+    nh, maxp = (1, 30) if tier == "quick" else (30, None)
+    hists = []
+    cdir = os.path.join(C.VERIF, "corpus", prop)
+    if os.path.isdir(cdir):
+        hists += [os.path.join(cdir, fn) for fn in sorted(os.listdir(cdir)) if fn.endswith(".crashhist")]
+    if ctx.get("replay"):
+        hists, nh = ([ctx["replay"]] if ctx["replay"].endswith(".crashhist") else []), 0
+    cw = os.path.join(wd, "crashenum"); os.makedirs(cw, exist_ok=True)
+    for i in range(nh):
+        bits = rng.choice((8, 9, 12))
+        ks = [k.hex() for k in gen.mk_keys(rng, rng.randint(4, 7), first=(5, 6, 7))]
+        lines = ["cfg primary=mh bits=%d imax=%d pmax=%d imm=0" % (bits, rng.choice((40, 100, 1 << 20)), rng.choice((60, 1 << 20)))]
+        for k in ks:
+            lines.append("put %s %s" % (k, gen.hexv(gen.rand_val(rng) or b"v")))
+            if rng.random() < 0.4:
+                lines.append("flush")
+        lines.append("remove %s" % rng.choice(ks))
+        lines.append("flush")
+        for nb in rng.sample([b for b in (8, 9, 12, 16) if b != bits], rng.randint(1, 2)):
+            lines.append("rebits %d" % nb)
+            lines += ["put %s %s" % (rng.choice(ks), gen.hexv(gen.rand_val(rng) or b"w")), "flush"]
+        lines.append("close")
+        p = os.path.join(cw, "g%03d.crashhist" % i)
+        open(p, "w").write("\n".join(lines) + "\n")
+        hists.append(p)
+    viol, points, torn, calls = [], 0, 0, 0
+    samples = []
+    for hp in hists:
+        n, nt, fails, nc = crash.enumerate_history(hp, cw, rng, max_points=maxp, torn=(tier != "quick"))
+        points += n; torn += nt; calls += nc
+        if len(samples) < 2:
+            samples.append({"crash_history": open(hp).read().strip().split("\n")[:16], "kill_points": n, "torn_variants": nt})
+        for f in fails[:2]:
+            txt = open(hp).read()
+            rp = C.save_replay(prop, "crash-%s.crashhist" % hashlib.sha1((txt + f["what"]).encode()).hexdigest()[:10],
+                               "# %s fails on the implementation: %s\n# crash point: %s\n# directory image left by the crash: %s\n"
+                               "# replay: cd /verif && ./check %s --replay <this file>   (re-enumerates every crash point of this history)\n%s"
+                               % (prop, f["bad"], f["what"], f["image"], prop, txt))
+            viol.append(("crash enumeration of a re-bucketing: %s [%s]" % (f["bad"], f["what"]), rp, True))
+        if viol:
+            break
+    return viol, {"evaluations": points + torn, "distinct_nontrivial": points, "crash_points_inside_histories_with_rebucketing": points, "torn_write_variants": torn,
+                  "file_system_calls_traced": calls, "crash_histories": len(hists), "samples": samples,
+                  "crash_rule": "histories with 4-7 keys in three buckets, a removal, flushes and one or two re-bucketings run in a child under strace; SIGKILL on entering the K-th "
+                                "file-system call for every K whose predecessor changed the store directory (quick: 30 per history, the directory operations always included; thorough: all, with torn "
+                                "variants of the killed write); each image is opened with the bit size that was being installed: the open may be refused only if the old bit size "
+                                "still opens the store with everything in it; otherwise every key must read its durable value, and the store must work on (GC, flush, restart)"}
+
+
 CHECKS["C09"] = Spec(
     prop_file="C09.v",
+    tools=["sthdrive", "witness", "crashdrive"],
+    extra=_c09_crash,
     weights=dict(put=34, get=10, has=2, size=2, remove=12, flush=10, rebits=9, missize=3, reopen=2, igc=2, pgc=3),
     gen_kw=dict(sweep_p=0.7, bits_choices=(8, 9, 12, 15, 16, 17)),
     keep=("res", "tbl"),
